@@ -22,6 +22,16 @@ CLAIMS = {
              "with the implementation on every run (all 16 axes pairs x vectors flag x one/two grids, API helpers, "
              "every n in [1,4096] x both conventions x float32/64).",
         ref="5 C01"),
+    "C05": dict(
+        technique="Lean 4 theorems: deepali's sampling coordinate pipeline = ITK physToIdx∘idxToPhys (any grid pair, "
+                  "either align_corners), plus correspondence with the implementation and SimpleITK",
+        text="7 theorems: for every target sample the continuous source index handed to the interpolator equals ITK's "
+             "physical-point round trip for any pair of valid oriented grids in any dimension; hence sampled values equal "
+             "the ITK specification for all image contents; inside the field of view padding is invisible; self-sampling "
+             "is the identity; constant padding = constant extension. grid_sample's own semantics is modelled and "
+             "validated against torch every run; values are compared with the implementation (linear/nearest x "
+             "zeros/border/constant x Image/batch forms) and with SimpleITK.Resample inside the field of view.",
+        ref="5 C05"),
 }
 
 NOT_APPLICABLE = {}
